@@ -152,7 +152,7 @@ type TaintResult struct {
 
 var digitsRe = regexp.MustCompile(`([0-9])$`)
 
-func siteID(instr ssa.Instruction) string {
+func SiteID(instr ssa.Instruction) string {
 	if c, ok := instr.(ssa.CallInstruction); ok {
 		name := ""
 		if c.Common().IsInvoke() {
@@ -205,7 +205,7 @@ func RunTaintYaml(l *Loaded, yamlText string) (res TaintResult, raw *taint.Analy
 		fl := map[string]bool{}
 		for snk, srcs := range ar.TaintFlows.Sinks {
 			for src := range srcs {
-				fl["S"+siteID(src.Instr)+">"+siteID(snk.Instr)] = true
+				fl["S"+SiteID(src.Instr)+">"+SiteID(snk.Instr)] = true
 			}
 		}
 		for f := range fl {
@@ -215,7 +215,7 @@ func RunTaintYaml(l *Loaded, yamlText string) (res TaintResult, raw *taint.Analy
 		es := map[string]bool{}
 		for _, srcs := range ar.TaintFlows.Escapes {
 			for src := range srcs {
-				es["S"+siteID(src)] = true
+				es["S"+SiteID(src)] = true
 			}
 		}
 		for f := range es {
